@@ -101,7 +101,8 @@ class M16(refsem.Machine):
             if olb == 0 and is_const(op.operands[0]):
                 floor_f = (iub - ilb) // ist
                 trip = max(0, _ceildiv(iub - ilb, ist))
-                if not (I64_MIN <= oub * floor_f <= I64_MAX):
+                # (floor factor = unchanged pass; trip count = the pass with the proposed factor fix)
+                if not (I64_MIN <= oub * floor_f <= I64_MAX and I64_MIN <= oub * trip <= I64_MAX):
                     self.flags.add("flatten-ub-times-factor-overflow")
                 src = max(0, _ceildiv(oub, ost)) * trip
                 tgt = max(0, _ceildiv(oub * floor_f, ost))
@@ -145,6 +146,18 @@ class M16(refsem.Machine):
         try:
             if n in TRAP_OPS:
                 self.trap_executed.add((n, _hint(op)))
+                a, b = env[op.operands[0]], env[op.operands[1]]
+                if a is POISON and b is not POISON:
+                    # LLVM semantics: a poison dividend gives a poison quotient/remainder; only the divisor decides
+                    # whether the operation traps (0 always; -1 for the signed forms since poison may be INT_MIN).
+                    w = refsem.width(op.results[0].type)
+                    signed = n in ("arith.divsi", "arith.remsi", "arith.floordivsi", "arith.ceildivsi")
+                    if b == 0:
+                        raise Undefined("division by zero")
+                    if signed and S(b, w) == -1:
+                        raise Undefined("signed division overflow")
+                    env[op.results[0]] = POISON
+                    return None
             elif n == "scf.for":
                 self.for_execs += 1
                 self._flag_perfect_nest(op, env)
